@@ -359,7 +359,7 @@ def searchpath_rule(c, chk, ex):
                 chk.fail('R7.3', 'shared-path:%s' % f.name, c.where(call),
                          '%s() releases a sub-section with cfg_free() without first clearing its shared search-path pointer: the root\'s search path is freed with it' % f.name,
                          witness=[repr(e) for e in wit.events[-6:]] if wit else None)
-    chk.floor('R7.3 sub-section release sites', nsites, 3)
+    chk.floor('R7.3 sub-section release sites', nsites, 2)
 
 
 def section_origin(f, call):
